@@ -43,7 +43,13 @@
 //! Deviations from DESIGN.md: no division in the grammar (keeps run-time errors out, so any engine error is decidable);
 //! subquery conjuncts and constant predicates added (they are where the defect lives).
 //!
-//! Sensitivity probes: see the end of this header (filled in after running them with mutrun).
+//! Sensitivity probes (tools/mutrun, patches in crates/vf-hist/probes/, quick tier, seed 0):
+//! * probe-x.diff — `MemTable::delete_from` keeps only rows whose predicate is FALSE (NULL treated like TRUE for deletion):
+//!   VIOLATION after 4 cases ("table contents differ from the reference model after `DELETE FROM t WHERE (a = id)`").
+//! * probe-y.diff — `MemTable::update` counts every row of a touched batch (`total_updated += batch.num_rows()`):
+//!   VIOLATION after 5 cases ("`UPDATE t SET a = id WHERE (a = 0)` reported 1 but the reference model affects 0 of 1 rows").
+//! * fixes-all.diff (the three C39 repair patches + the C41/C48 ones): `./check C39 quick` exits 0 with known_excluded = 0 (704
+//!   histories evaluated, none fails) — the known findings no longer reproduce and nothing else breaks.
 use crate::exprgen::{self, EOpts, Scope, ScopeCol};
 use crate::tape::Tape;
 use datafusion::common::tree_node::{TreeNode, TreeNodeRecursion};
@@ -488,9 +494,22 @@ impl Model {
 // engine side
 
 async fn sql_rows(ctx: &SessionContext, sql: &str) -> Result<Vec<Vec<Value>>, (ErrClass, String)> {
+    sql_rows_typed(ctx, sql).await.map(|r| r.0)
+}
+
+/// rows + "some batch carries a column whose physical type is not the declared type of `t`'s column" (only meaningful for `SELECT * FROM t`)
+async fn sql_rows_typed(ctx: &SessionContext, sql: &str) -> Result<(Vec<Vec<Value>>, bool), (ErrClass, String)> {
+    use datafusion::arrow::datatypes::DataType;
     let df = ctx.sql(sql).await.map_err(|e| (classify_error(&e), truncate(&e.strip_backtrace(), 600)))?;
     let batches = df.collect().await.map_err(|e| (classify_error(&e), truncate(&e.strip_backtrace(), 600)))?;
-    Ok(batches_to_rows(&batches))
+    let declared = |ty: Ty| match ty {
+        Ty::Int => DataType::Int64,
+        Ty::Float => DataType::Float64,
+        Ty::Str => DataType::Utf8,
+        Ty::Bool => DataType::Boolean,
+    };
+    let drift = batches.iter().any(|b| b.num_columns() == COLS.len() && b.schema().fields().iter().zip(COLS.iter()).any(|(f, (_, ty))| *f.data_type() != declared(*ty)));
+    Ok((batches_to_rows(&batches), drift))
 }
 
 fn variant(case: &Case) -> Variant {
@@ -574,6 +593,9 @@ async fn drive(ctx: &SessionContext, case: &Case) -> (CaseResult, Option<String>
     }
     let mut nontrivial = false;
     let mut checked = 0usize;
+    // an earlier INSERT .. SELECT left a batch of another physical type in the table (known finding `insert-type-drift`):
+    // every later failure of the history is attributed to it
+    let mut drifted = false;
     let mut script: Vec<String> = vec![];
     let fail = |msg: String, script: &[String], labels: Vec<String>| CaseResult::violation(format!("{msg}\n  repro:\n{}{}", vf_df::repro_script(&[case.t.clone(), case.u.clone()], "SELECT 1"), script.join(";\n"))).labels(labels);
     for (i, s) in case.stmts.iter().enumerate() {
@@ -617,6 +639,7 @@ async fn drive(ctx: &SessionContext, case: &Case) -> (CaseResult, Option<String>
                 } else {
                     lost_sig(ctx, s, &sql).await
                 };
+                let sig = if drifted { Some("insert-type-drift".to_string()) } else { sig };
                 return (fail(format!("statement {i} `{sql}` failed with {class:?}: {msg} (the reference applies it: count {})", facts.count), &script, labels), sig);
             }
         };
@@ -628,18 +651,24 @@ async fn drive(ctx: &SessionContext, case: &Case) -> (CaseResult, Option<String>
         };
         labels.push(kind.into());
         if got.len() != 1 || got[0].len() != 1 || got[0][0] != Value::Int(facts.count as i64) {
-            let sig = lost_sig(ctx, s, &sql).await;
+            let sig = if drifted { Some("insert-type-drift".to_string()) } else { lost_sig(ctx, s, &sql).await };
             return (fail(format!("statement {i} `{sql}` reported {} but the reference model affects {} of {} rows\n  table before: {}", refsql::fmt_rows(&got, 5), facts.count, facts.rows_before, refsql::fmt_rows(&before, 40)), &script, labels), sig);
         }
-        let content = match sql_rows(ctx, "SELECT * FROM t").await {
-            Ok(r) => r,
+        let content = match sql_rows_typed(ctx, "SELECT * FROM t").await {
+            Ok((r, drift)) => {
+                if drift && !drifted {
+                    drifted = true;
+                    labels.push("table-holds-foreign-physical-type".into());
+                }
+                r
+            }
             Err((class, msg)) => {
-                let sig = msg.contains("column types must match schema types").then(|| "insert-type-drift".to_string());
+                let sig = (drifted || msg.contains("column types must match schema types")).then(|| "insert-type-drift".to_string());
                 return (fail(format!("SELECT * FROM t after statement {i} `{sql}` failed with {class:?}: {msg}"), &script, labels), sig);
             }
         };
         if let Some(d) = refsql::multiset_diff(&model.t, &content) {
-            let sig = lost_sig(ctx, s, &sql).await;
+            let sig = if drifted { Some("insert-type-drift".to_string()) } else { lost_sig(ctx, s, &sql).await };
             return (fail(format!("table contents differ from the reference model after statement {i} `{sql}` (count {} agreed)\n  table before: {}\n  {d}", facts.count, refsql::fmt_rows(&before, 40)), &script, labels), sig);
         }
         checked += 1;
